@@ -18,6 +18,17 @@ class _PositioningTracker:
         # this attribute is used to store it and determine by comparison if the
         # next positioning is actually a Tab Offset
         self._last_column = None
+        # Set when a caption was completed: the next positioning belongs to a
+        # new caption and must not be interpreted relative to the old rows
+        self._caption_completed = False
+
+    def caption_completed(self):
+        """Call when the caption being built was completed (End Of Caption).
+        The next positioning is then never taken for a line break or a tab
+        offset of the previous caption (e.g. a caption on row 14 followed by
+        a new caption on row 15).
+        """
+        self._caption_completed = True
 
     def update_positioning(self, positioning):
         """Being notified of a position change, updates the internal state,
@@ -30,9 +41,19 @@ class _PositioningTracker:
         current = self._positions[-1]
 
         if not current:
+            self._caption_completed = False
             if positioning:
                 # Set the positioning for the first time
                 self._positions = [positioning]
+            return
+
+        if self._caption_completed:
+            # First positioning of a new caption: start over from here
+            self._caption_completed = False
+            self._positions = [positioning]
+            self._break_required = False
+            self._last_column = None
+            self._repositioning_required = True
             return
 
         row, col = current
